@@ -25,6 +25,16 @@ def pinned(name, value):
     return value == PARAMS[name]
 
 
+def pin(name, value):
+    """The pinned constant for a sharded selector (a plain Python value), else the symbolic value.
+
+    Using the constant inside the harness body keeps list/type lookups concrete (a symbolic index
+    into a list of classes makes CrossHair build a symbolic *type*, which it refuses to call)."""
+    if name in PARAMS:
+        return PARAMS[name]
+    return value
+
+
 def tier(quick, thorough):
     """Pick a bound by tier."""
     return thorough if THOROUGH else quick
